@@ -13,6 +13,27 @@ CLAIMED = {
    text="Lean theorems (all profiles, vectors, weights): every ballot hands out exactly the vector total (exact division), scores are the weight-summed declarative points over the original ballots. Correspondence on the four scoring utilities and Plurality/SNTV/Borda; monitors: point total, independent reference scoring, top-m.",
    note="Trusted: Lean kernel + standard axioms; model fidelity as sampled; float vector entries taken at exact binary value.",
    ref="DESIGN.md §4 C04"),
+
+ "C02": dict(
+   text="Lean theorems: the threshold is the documented Droop/Hare function of the initial total (with the defining Droop inequalities) and is the value every step of a run uses. Correspondence: every round (threshold, elected, eliminated, remaining order, tallies, tiebreak record) of STV/IRV/SequentialRCV against the Lean model; monitor: an independent textbook reference count compared round by round, engineered tallies exactly at and 1/10^6 below the threshold.",
+   note="Trusted: Lean kernel + standard axioms; pointwise count state vs. the code's physical deletion/condensing (observational equality checked per round); int() as floor; random.sample as oracle.",
+   ref="DESIGN.md §4 C02"),
+ "C03": dict(
+   text="Lean theorems for fractional_transfer on arbitrary ballot lists: no output mentions the winner, every output ranking is an input ranking with the winner erased, each continuing ranking carries exactly (t-q)/t of the winner-led weight plus the full weight of the other ballots mapping to it, transfer value in [0,1), a ballot loses at most q. Correspondence on direct calls of both transfer functions (oracle = the logged random.sample result) and on full STV runs; monitors: sub-collection/size/population of the random rule, per-round accounting against reference weights.",
+   note="Trusted: Lean kernel + standard axioms; random.sample's law (sequential uniform picks) is assumed; the harness checks the population and size it is called with. Open finding F-C01-c (sample larger than transferable ballots).",
+   ref="DESIGN.md §4 C03"),
+ "C05": dict(
+   text="Lean theorems: a ballot passes the validator iff it has scores all within [0,L] and within the budget (inclusive boundaries); a profile with an invalid ballot is rejected with TypeError whatever else it contains; an all-valid profile runs the score-then-elect computation; totals are sum of weight x score; subclass parameterisation. Correspondence over the six classes with ballots violating exactly one limit by 1/10^6 or grossly at first/middle/last position; monitors: accept-iff, totals, top-m, boundary-tie ValueError.",
+   note="Trusted: Lean kernel + standard axioms; pydantic score conversion.",
+   ref="DESIGN.md §4 C05"),
+ "C11": dict(
+   text="Lean theorems (all ballot lists): condensing yields pairwise distinct contents, keeps every content's weight and the total, is permutation-invariant as a weight map and idempotent; profile equality iff equal weight maps; addition adds weight maps; duplicate candidate lists rejected. Correspondence on condense/==/+/derived fields over mixed ranked/scored/empty ballots in permuted orders; Python-side monitors (labelled tests) for immutability and float->Fraction conversion.",
+   note="Trusted: Lean kernel + standard axioms; pydantic frozen=True and Fraction.limit_denominator are observed, not proved. Repaired defect F-C11 (fix: commit a91f9f8).",
+   ref="DESIGN.md §4 C11"),
+ "C12": dict(
+   text="Lean theorems: removed candidates absent; output rankings are the inputs filtered in place; weight of every resulting content = summed weight of the inputs mapping to it (condensed or not); weight lost = weight of ballots that end up empty; add_missing appends exactly the unlisted candidates; tie expansion yields prod(k_i!) equal-weight ballots adding up to the original. Correspondence on remove_cand (3 input kinds x flags), add_missing_cands, expand/resolve ties and the three cleaning functions; monitors recompute weight maps and first-place/Borda totals independently.",
+   note="Trusted: Lean kernel + standard axioms; itertools.groupby/permutations modelled by own enumeration. Open finding F-C12.",
+   ref="DESIGN.md §4 C12"),
 }
 TECH = "Lean 4 kernel-checked theorems over a hand-written executable model + differential correspondence check of the model against /repo/src + independent Python monitors"
 
